@@ -1,4 +1,5 @@
 import PC.Tie.Stop
+import PC.Model.StopPlan
 import PC.Spec.Pure
 /-! C06 — OS-level stop: signal clamp and group/parent choice (pure part). -/
 namespace PC.Props.C06
@@ -28,5 +29,111 @@ theorem signal_clamp_src (sig : Int) (parentOnly : Bool) :
 example : cmdStop false 0 false true = SigAction.group 15 := by decide
 example : cmdStop false 9 true true = SigAction.parent 9 := by decide
 example : cmdStop false 32 false true = SigAction.group 15 := by decide
+
+/-! ### The sequence of OS actions of a stop -/
+
+def killAction (parentOnly : Bool) : Action := .signal (cmdStop false 9 parentOnly true)
+
+/-- **The configured signal goes to the whole group unless `parent_only`** — it is the first thing
+    a stop without a shutdown command does -/
+theorem first_signal (p : Params) (o : Outcome) (h : p.hasCommand = false) :
+    (stopActions p o).head? = some (.signal
+      (if p.parentOnly then .parent (effectiveSignal p.signal) else .group (effectiveSignal p.signal))) := by
+  simp [stopActions, h, signal_clamp]
+
+/-- **SIGKILL never earlier than the timeout**: without a shutdown command, the actions are the
+    configured signal, then — only when a timeout is configured — a wait of exactly that many
+    seconds, then SIGKILL only when the process has not ended within it. -/
+theorem kill_only_after_timeout (p : Params) (o : Outcome) (h : p.hasCommand = false) :
+    stopActions p o =
+      .signal (cmdStop false p.signal p.parentOnly true) ::
+        (if p.timeout = 0 then []
+         else if o.endedInTime then [.wait p.timeout]
+         else [.wait p.timeout, killAction p.parentOnly]) := by
+  simp only [stopActions, h, Bool.false_eq_true, ↓reduceIte, undefinedShutdownTimeoutSec, ne_eq, killAction]
+  by_cases ht : p.timeout = 0
+  · simp [ht]
+  · by_cases he : o.endedInTime <;> simp [ht, he]
+
+/-- no timeout configured: one signal, never SIGKILL -/
+theorem no_timeout_no_kill (p : Params) (o : Outcome) (h : p.hasCommand = false) (ht : p.timeout = 0) :
+    stopActions p o = [.signal (cmdStop false p.signal p.parentOnly true)] := by
+  rw [kill_only_after_timeout p o h]; simp [ht]
+
+/-- **A configured shutdown command is run first (with the default timeout of 10 s when none is
+    configured); SIGKILL — to the whole group — follows only if it fails or times out** -/
+theorem command_then_kill_only_if_failed (p : Params) (o : Outcome) (h : p.hasCommand = true) :
+    stopActions p o =
+      .runCommand (if p.timeout = 0 then 10 else p.timeout) ::
+        (if o.cmdOk then [] else [.signal (.group 9)]) := by
+  simp only [stopActions, h, ↓reduceIte, undefinedShutdownTimeoutSec, defaultShutdownTimeoutSec]
+  by_cases hc : o.cmdOk <;> simp [hc, cmdStop, minSig, maxSig] <;> rfl
+
+/-! ### Effect on the process group (under the assumed signal semantics) -/
+
+theorem hit_kill (m : Member) : (hit 9 m).alive = false := by
+  unfold hit survives
+  cases h : m.alive <;> simp [h]
+
+/-- SIGKILL to the group leaves no member alive -/
+theorem group_kill_all (g : Group) : ∀ m ∈ deliver (.group 9) g, m.alive = false := by
+  intro m hm
+  simp only [deliver, List.mem_map] at hm
+  obtain ⟨x, _, rfl⟩ := hm
+  exact hit_kill x
+
+theorem hit_dead (s : Int) (m : Member) (h : m.alive = false) : (hit s m).alive = false := by
+  simp [hit, h]
+
+/-- **No survivor after the timeout**: with a timeout and without `parent_only`, if the process is
+    still running after the configured signal (the launched command is alive, or a member holds its
+    output open), the escalation leaves no member of the group alive. -/
+theorem no_survivor_after_timeout (p : Params) (g : Group) (hc : p.hasCommand = false) (hp : p.parentOnly = false)
+    (ht : p.timeout ≠ 0)
+    (hstill : stillRunning (deliver (.group (effectiveSignal p.signal)) g) = true) :
+    ∀ m ∈ stopGroup p true g, m.alive = false := by
+  have hact : ∀ o, stopActions p o = .signal (.group (effectiveSignal p.signal)) ::
+      (if o.endedInTime then [.wait p.timeout] else [.wait p.timeout, .signal (.group 9)]) := by
+    intro o
+    rw [kill_only_after_timeout p o hc]
+    simp [ht, hp, signal_clamp, killAction, cmdStop, minSig, maxSig, effectiveSignal]
+    try (split <;> split <;> first | rfl | omega)
+  unfold stopGroup
+  rw [hact]
+  simp only [applyAction]
+  rw [hact]
+  simp only [hstill, Bool.not_true, Bool.false_eq_true, ↓reduceIte, List.drop_succ_cons, List.drop_zero,
+    List.foldl_cons, List.foldl_nil, applyAction]
+  exact group_kill_all _
+
+/-- a member that does not trap the signal does not survive a group stop -/
+theorem obedient_member_ends (s : Int) (g : Group) (m : Member) (hm : m ∈ g) (hs : survives m s = false) :
+    (hit s m) ∈ deliver (.group s) g ∧ (hit s m).alive = false := by
+  refine ⟨List.mem_map.mpr ⟨m, hm, rfl⟩, ?_⟩
+  unfold hit
+  cases h : m.alive <;> simp [h, hs]
+
+/-- **Full statement false (S1)**: a descendant that traps the stop signal and has redirected its
+    output outlives a stop whose launched command ends in time — the escalation is tied to the end
+    of the launched command and of its output, not to the group. Witness: parent obeys SIGTERM,
+    child ignores it and does not hold the output, timeout 1 s. -/
+theorem ignoring_descendant_survives :
+    ∃ (p : Params) (g : Group), p.hasCommand = false ∧ p.parentOnly = false ∧ p.timeout ≠ 0 ∧
+      (stopGroup p true g).any (·.alive) = true := by
+  refine ⟨{ signal := 15, timeout := 1 }, [{}, { ignores := [15], holdsOutput := false }], rfl, rfl, by decide, by decide⟩
+
+/-- whereas a descendant that traps the signal but still holds the output is reached by the escalation -/
+example : (stopGroup { signal := 15, timeout := 1 } true [{}, { ignores := [15] }]).any (·.alive) = false := by decide
+
+/-- `parent_only` addresses the launched command alone -/
+theorem parent_only_leaves_descendants (s : Int) (m : Member) (r : Group) :
+    deliver (.parent s) (m :: r) = hit s m :: r := rfl
+
+example : stopActions { signal := 2, timeout := 3 } { endedInTime := false, cmdOk := true } =
+    [.signal (.group 2), .wait 3, .signal (.group 9)] := by decide
+example : stopActions { signal := 99, parentOnly := true } { endedInTime := false, cmdOk := true } =
+    [.signal (.parent 15)] := by decide
+example : stopActions { hasCommand := true, timeout := 0, parentOnly := true } { endedInTime := false, cmdOk := false } =
+    [.runCommand 10, .signal (.group 9)] := by decide
 
 end PC.Props.C06
